@@ -28,7 +28,7 @@ def suiteGoWrap (_kvs : List (String × String)) (lines : List (String × String
     | some out =>
       let ctx := (kvGet kvs "ctx").getD "none"
       let finish := kvBool kvs "finish" true
-      let sc : Scenario := { outcome := out, fnMayFinish := finish, ctxMayEnd := ctx != "none" && ctx != "after",
+      let sc : Scenario := { outcome := out, fnMayFinish := finish, ctxMayEnd := ctx != "none" && ctx != "late" && ctx != "after",
                              ctxEndedAtStart := ctx == "pre", lostErrors := kvBool kvs "lost" false }
       let allowed := (allowedFinal sc).map fmtFinal
       let rk := parseKVs (real.splitOn " ")
@@ -47,7 +47,7 @@ def suiteGoWrap (_kvs : List (String × String)) (lines : List (String × String
         else if caller == "blocked" then some "Go did not return"
         else if caller.startsWith "fn" ∧ caller != "fn:" ++ out.fmt then some "Go returned something that is neither the function's outcome nor the context's error"
         else if !(caller.startsWith "fn") ∧ caller != "ctx" then some "Go returned something that is neither the function's outcome nor the context's error"
-        else if caller == "ctx" ∧ (ctx == "none" ∨ ctx == "after") then some "context error although the context had not ended"
+        else if caller == "ctx" ∧ (ctx == "none" ∨ ctx == "late" ∨ ctx == "after") then some "context error although the context had not ended"
         else if surfacedN > 1 then some "the outcome was surfaced more than once"
         else if lostN > 0 ∧ lostTxt != "[" ++ out.fmt ++ "]" then some "GoLostErrors was told something that is not the function's outcome"
         else if lostN > 0 ∧ !sc.lostErrors then some "lost report without GoLostErrors"
@@ -57,7 +57,7 @@ def suiteGoWrap (_kvs : List (String × String)) (lines : List (String × String
       -- C10 speaks about panics reaching Go's caller (while the context has not ended) with the same value
       let isPanic := match out with | .panic _ => true | _ => false
       let c10 : Option String :=
-        if isPanic && (ctx == "none" || ctx == "after") && caller != "fn:" ++ out.fmt then
+        if isPanic && (ctx == "none" || ctx == "late" || ctx == "after") && caller != "fn:" ++ out.fmt then
           some "a panic raised under Go did not reach the caller with its value although the context had not ended"
         else none
       -- the function is always started (C18: its outcome must be surfaced; C08: pass-through circuits RUN the function)
